@@ -1,10 +1,9 @@
 import FCA.Generated.Defn
 import FCA.Proofs.Defn
 /-
-C13 over the regenerated source: nine of the fifteen `Definition` mutators (`__setitem__`, `move_*`, `add_*`, `set_*`,
-`union_update`, `intersection_update`), translated statement by statement from the current `definitions.py`, are the
-corresponding cases of the model's `Defn.step` — about which `C13_*` are proved. (`rename_*`, `remove_*`, `remove_empty_*` use
-comprehensions with side effects / `difference_update`; they are tied by the correspondence only.)
+C13 over the regenerated source: eleven of the fifteen `Definition` mutators (`__setitem__`, `move_*`, `add_*`, `set_*`,
+`remove_object/property`, `union_update`, `intersection_update`), translated statement by statement from the current `definitions.py`, are the
+corresponding cases of the model's `Defn.step` — about which `C13_*` are proved. (`rename_*` — a comprehension with a side effect — and `remove_empty_*` are tied by the correspondence only.)
 -/
 namespace FCA
 
@@ -73,6 +72,45 @@ theorem C13_generated_set_property (d : Defn) (p : Name) (os : List Name) :
   simp only [Generated.defn_set_property, Defn.step, C13_uIor_uniq, C13_contains_uniq]
   rfl
 
+theorem C13_contains_row (props : List Name) (o o' p' : Name) :
+    (props.map fun p => (o, p)).contains (o', p') = (o' == o && props.contains p') := by
+  rw [Bool.eq_iff_iff]
+  simp only [List.contains_iff_mem, List.mem_map, Prod.mk.injEq, Bool.and_eq_true, beq_iff_eq]
+  constructor
+  · rintro ⟨p, hp, rfl, rfl⟩; exact ⟨rfl, hp⟩
+  · rintro ⟨rfl, hp⟩; exact ⟨p', hp, rfl, rfl⟩
+
+theorem C13_contains_col (objs : List Name) (p o' p' : Name) :
+    (objs.map fun o => (o, p)).contains (o', p') = (p' == p && objs.contains o') := by
+  rw [Bool.eq_iff_iff]
+  simp only [List.contains_iff_mem, List.mem_map, Prod.mk.injEq, Bool.and_eq_true, beq_iff_eq]
+  constructor
+  · rintro ⟨o, ho, rfl, rfl⟩; exact ⟨rfl, ho⟩
+  · rintro ⟨rfl, ho⟩; exact ⟨o', ho, rfl, rfl⟩
+
+/-- `remove_object`: `Unique.remove` (KeyError for an unknown name), then `difference_update` with the row of the current properties -/
+theorem C13_generated_remove_object (d : Defn) (o : Name) :
+    Generated.defn_remove_object d.objs d.props d.pairs o = (d.step (.removeObject o)).map (·.1) := by
+  simp only [Generated.defn_remove_object, Defn.step, uRemove, pDifference]
+  by_cases h : d.objs.contains o = true
+  · simp only [h, if_true]
+    have : (fun q : Name × Name => !(d.props.map fun p => (o, p)).contains q) =
+        (fun x : Name × Name => match x with | (o', p) => !(o' == o && d.props.contains p)) := by
+      funext ⟨o', p'⟩; simp only [C13_contains_row]
+    simp only [this]; rfl
+  · simp only [h]; rfl
+
+theorem C13_generated_remove_property (d : Defn) (p : Name) :
+    Generated.defn_remove_property d.objs d.props d.pairs p = (d.step (.removeProperty p)).map (·.1) := by
+  simp only [Generated.defn_remove_property, Defn.step, uRemove, pDifference]
+  by_cases h : d.props.contains p = true
+  · simp only [h, if_true]
+    have : (fun q : Name × Name => !(d.objs.map fun o => (o, p)).contains q) =
+        (fun x : Name × Name => match x with | (o, p') => !(p' == p && d.objs.contains o)) := by
+      funext ⟨o', p'⟩; simp only [C13_contains_col]
+    simp only [this]; rfl
+  · simp only [h]; rfl
+
 theorem C13_generated_union_update (d other : Defn) (ig : Bool) :
     Generated.defn_union_update d.objs d.props d.pairs other ig = (d.step (.unionUpdate other ig)).map (·.1) := by
   simp only [Generated.defn_union_update, Defn.step]
@@ -93,3 +131,5 @@ end FCA
 #print axioms FCA.C13_generated_set_property
 #print axioms FCA.C13_generated_union_update
 #print axioms FCA.C13_generated_intersection_update
+#print axioms FCA.C13_generated_remove_object
+#print axioms FCA.C13_generated_remove_property
